@@ -45,6 +45,8 @@ func VerifNewManager(dc string, nss map[string]*models.Namespace) (*Manager, err
 	if err != nil {
 		return nil, err
 	}
+	// per-namespace channels of the shared statistics object must belong to the current run
+	st.SQLResponsePercentile = make(map[string]*SQLResponse)
 	m := NewManager()
 	m.statistics = st
 	current, _, _ := m.switchIndex.Get()
